@@ -2,7 +2,7 @@
 from verif import *
 from props.routers import *
 
-THEOREMS = ['c16_ps_flushed_at_completion']
+THEOREMS = ['c16_ps_flushed_at_completion', 'c16_ps_closed_pending_only_from_sinks', 'c16_rr_closed_pending_only_from_sinks']
 
 
 def run(tier, seed, replay=None):
